@@ -724,8 +724,8 @@ def _descendants(layout, url):
 STATE_AXIS_EVERY = {"quick": 8, "thorough": 4}     # seeds (per first event) that get the wave-2 product
 SEED_PARTS = {"quick": 1, "thorough": 8}           # shards per first event (balance only: same explored set)
 # wave 5: which accepted seeds (numbered per first event) carry the new axes: (modulus, residue)
-ADDR_AXIS_SEEDS = {"quick": (16, 2), "thorough": (32, 2)}    # even numbers: the decorated spelling
-SHAPE_AXIS_SEEDS = {"quick": (16, 5), "thorough": (64, 5)}   # odd numbers: the plain spelling (thorough: x 7 addressings)
+ADDR_AXIS_SEEDS = {"quick": (16, 2), "thorough": (16, 2)}    # even numbers: the decorated spelling
+SHAPE_AXIS_SEEDS = {"quick": (16, 5), "thorough": (32, 5)}   # odd numbers: the plain spelling (thorough: x 7 addressings)
 
 
 def shard(arg, acc):
